@@ -144,6 +144,27 @@ func Schemas(thorough bool) (schemas []M, leaves []M, comps M) {
 		M{"oneOf": []any{M{"type": "array", "items": small[0]}, M{"type": "string"}}},
 		M{"oneOf": []any{M{"$ref": "#/components/schemas/Cat"}, M{"$ref": "#/components/schemas/Dog"}}, "discriminator": M{"propertyName": "kind", "mapping": M{"cat": "#/components/schemas/Cat", "dog": "#/components/schemas/Dog"}}},
 	)
+	// allOf whose members constrain the same thing: the result is the conjunction, i.e. the
+	// stricter bound of each kind wins (a seeded swap of min and max in the allOf merger was missed
+	// while the members only carried different properties)
+	both := func(a, b M) M { return M{"allOf": []any{a, b}} }
+	schemas = append(schemas,
+		both(M{"type": "string", "minLength": 2, "maxLength": 6}, M{"type": "string", "minLength": 4, "maxLength": 8}),
+		both(M{"type": "string", "maxLength": 3}, M{"type": "string", "maxLength": 5}),
+		both(M{"type": "string", "minLength": 3}, M{"type": "string", "minLength": 1, "pattern": "^a"}),
+		both(M{"type": "integer", "minimum": 0, "maximum": 10}, M{"type": "integer", "minimum": 5, "maximum": 20}),
+		both(M{"type": "integer", "minimum": 5}, M{"type": "integer", "minimum": -5, "exclusiveMinimum": true}),
+		both(M{"type": "number", "maximum": 2.5}, M{"type": "number", "maximum": 7.5, "minimum": -1}),
+		both(M{"type": "integer", "maximum": 5, "exclusiveMaximum": true}, M{"type": "integer", "maximum": 10}),
+		both(M{"type": "integer", "maximum": 5}, M{"type": "integer", "maximum": 10, "exclusiveMaximum": true}),
+		both(M{"type": "number", "minimum": 0, "exclusiveMinimum": true}, M{"type": "number", "minimum": 0.0}),
+		both(M{"type": "array", "items": small[0], "minItems": 1, "maxItems": 4}, M{"type": "array", "items": small[0], "minItems": 2, "maxItems": 3}),
+		both(M{"type": "array", "items": small[1], "maxItems": 1}, M{"type": "array", "items": small[1], "maxItems": 3, "uniqueItems": true}),
+		both(M{"type": "object", "properties": M{"p": M{"type": "string", "maxLength": 3}}, "required": []string{"p"}}, M{"type": "object", "properties": M{"p": M{"type": "string", "maxLength": 5, "minLength": 2}, "q": small[0]}}),
+		both(M{"type": "object", "properties": M{"p": small[0]}, "minProperties": 1, "maxProperties": 3}, M{"type": "object", "properties": M{"q": small[1]}, "minProperties": 2, "maxProperties": 2}),
+		both(M{"type": "object", "properties": M{"p": M{"type": "integer", "minimum": 0}}}, M{"type": "object", "properties": M{"p": M{"type": "integer", "minimum": 3, "maximum": 9}}, "required": []string{"p"}}),
+		M{"allOf": []any{M{"type": "string", "minLength": 1}, M{"type": "string", "maxLength": 4}, M{"type": "string", "minLength": 2, "maxLength": 9}}},
+	)
 	comps = M{
 		"Tree": M{"type": "object", "required": []string{"v"}, "properties": M{"v": small[0], "kids": M{"type": "array", "items": M{"$ref": "#/components/schemas/Tree"}, "maxItems": 2}}, "additionalProperties": false},
 		"Cat":  M{"type": "object", "required": []string{"kind", "p"}, "properties": M{"kind": M{"type": "string"}, "p": small[0]}},
